@@ -1,17 +1,22 @@
 (* C10, fast serialization as a STATE MACHINE over a family of FastSerializable classes
    (typedpy/serialization/fast_serialization.py: FastSerializable.__init__, _verify_is_fast_serializable,
    _get_serialize, create_serializer, set_compact_wrapper; serialize_internal's fast branch in
-   serialization.py; Array.serialize / Set.serialize in typedpy/fields).
+   serialization.py; ClassReference.serialize, Array.serialize / Set.serialize in typedpy/fields).
 
    What `K.serialize` is at a given moment is per-class mutable state:
      * create_serializer(K, compact, serialize_none) installs a generated closure in K's own __dict__
-       (explicitly, implicitly at the first instantiation of K, implicitly for a class a new serializer
-       refers to directly or as Array item when that class resolves to the mix-in's stub);
+       (explicitly, implicitly at the first instantiation of K - trusted or not, with or without keywords -,
+       implicitly for a class a new serializer refers to directly or as Array item when that class resolves to
+       the mix-in's stub);
      * a subclass without its own entry INHERITS the closure of the nearest base class that has one
        (attribute lookup through the MRO): that closure knows the base class's fields and mapper only;
-     * the closure of a class refers to the classes of its fields LATE (`obj.serialize(val)`, obj = the class)
-       for direct and Optional references, but Array.serialize / Set.serialize FREEZE the function
-       `items._ty.serialize` they see at their first call in a per-field cache (`field._serialize`).
+     * the closure of a class refers to the classes of the values it meets LATE and BY THE VALUE'S OWN CLASS:
+       every nested structure x - held directly, through Optional, as an element of an Array or a Set - is
+       serialized by ClassReference.serialize = whatever `type(x).serialize` is at that moment.  (Array.serialize /
+       Set.serialize used to freeze `items._ty.serialize` at their first call in a per-field cache, and all of
+       them used the DECLARED class: findings C10-fast-stale-collection-serializer and
+       C10-fast-subclass-instance-in-base-field, repaired in typedpy; the cache that remains holds the bound
+       method of the field, which carries no state.)
    The class AST is that of Ser/Trusted.v, flattened (all fields of a class, base class fields first);
    the inheritance relation is given separately (child -> parent).
    Executable; no proofs here. *)
@@ -27,55 +32,18 @@ Inductive sfun :=
 | SStub                                (* FastSerializable.serialize: raises NotImplementedError *)
 | SGen (k : pystr) (cf : sconf).       (* the closure generated for class k with flags cf *)
 
-(* (class that declares the field, field name, class of the items) identifies an Array/Set field object *)
-Definition ckey := (pystr * pystr * pystr)%type.
-Definition ckey_eqb (a b : ckey) : bool :=
-  match a, b with (a1, a2, a3), (b1, b2, b3) => pystr_eqb a1 b1 && pystr_eqb a2 b2 && pystr_eqb a3 b3 end.
-Definition ckey_item (k : ckey) : pystr := snd k.
-
 Definition ownmap := list (pystr * sconf).        (* classes with "serialize" in their OWN __dict__ (newest first) *)
-Definition cache := list (ckey * sfun).           (* field._serialize of Array/Set-of-class fields *)
-Record fstate := { fs_own : ownmap; fs_cache : cache }.
-Definition st0 : fstate := {| fs_own := []; fs_cache := [] |}.
-
-Fixpoint cache_get (ch : cache) (k : ckey) : option sfun :=
-  match ch with
-  | [] => None
-  | (k', f) :: t => if ckey_eqb k' k then Some f else cache_get t k
-  end.
+Definition fstate := ownmap.                      (* the whole state: nothing else is remembered between calls *)
+Definition st0 : fstate := [].
+Definition fs_own (st : fstate) : ownmap := st.
 
 Definition ores := (ownmap * res unit)%type.
-Definition stres (A : Type) := (cache * res A)%type.
-
-Fixpoint mapM_st {A B} (f : cache -> A -> stres B) (ch : cache) (l : list A) : stres (list B) :=
-  match l with
-  | [] => (ch, Ok [])
-  | x :: t =>
-      match f ch x with
-      | (ch1, Ok y) => match mapM_st f ch1 t with
-                       | (ch2, Ok r) => (ch2, Ok (y :: r))
-                       | (ch2, Raise ex) => (ch2, Raise ex)
-                       end
-      | (ch1, Raise ex) => (ch1, Raise ex)
-      end
-  end.
 
 Fixpoint has_ref (tf : tfield) : bool :=
   match tf with
   | TRef _ => true
   | TArray item | TSet item => has_ref item
   | TOpt _ f => has_ref f
-  | _ => false
-  end.
-
-Fixpoint strip_opt (tf : tfield) : tfield :=
-  match tf with TOpt _ f => strip_opt f | _ => tf end.
-
-(* the shapes in which a class may be referred to that this model covers *)
-Definition shape_ok (tf : tfield) : bool :=
-  negb (has_ref tf) ||
-  match strip_opt tf with
-  | TRef _ | TArray (TRef _) | TSet (TRef _) => true
   | _ => false
   end.
 
@@ -101,20 +69,6 @@ Section WithFamily.
               end
     end.
   Definition resolve (own : ownmap) (cn : pystr) : sfun := resolve_n (length e) own cn.
-
-  (* the class whose body declares field f of class cn (Field objects are shared with subclasses) *)
-  Fixpoint decl_n (n : nat) (cn f : pystr) : pystr :=
-    match n with
-    | O => cn
-    | S n' => match alist_get ps cn with
-              | Some p => match find_tclass e p with
-                          | Some pc => if has_field pc f then decl_n n' p f else cn
-                          | None => cn
-                          end
-              | None => cn
-              end
-    end.
-  Definition decl_of (cn f : pystr) : pystr := decl_n (length e) cn f.
 
   (* ---------------------------------------------------------------- create_serializer *)
 
@@ -210,78 +164,12 @@ Section WithFamily.
 
   (* ---------------------------------------------------------------- serialization in a state *)
 
-  (* Array.serialize / Set.serialize of a field whose items are class c: the function frozen at the
-     first call, else the one `c.serialize` evaluates to now (which is then frozen) *)
-  Definition freeze (own : ownmap) (ch : cache) (k : ckey) : cache * sfun :=
-    match cache_get ch k with
-    | Some f => (ch, f)
-    | None => let f := resolve own (ckey_item k) in ((k, f) :: ch, f)
-    end.
-
-  Definition call_ref (run : cache -> pystr -> sconf -> pyval -> stres pyval)
-             (ch : cache) (c : pystr) (f : sfun) (v : pyval) : stres pyval :=
-    match find_tclass e c with
-    | Some cd => if t_fast cd
-                 then match f with
-                      | SStub => (ch, Raise NotImplementedError)
-                      | SGen k cf => run ch k cf v
-                      end
-                 else (ch, Raise TypeError)
-    | None => (ch, Raise Unmodelled)
-    end.
-
-  Definition wrap_list (r : stres (list pyval)) : stres pyval :=
-    match r with
-    | (ch, Ok l) => (ch, Ok (PList l))
-    | (ch, Raise ex) => (ch, Raise ex)
-    end.
-
-  Definition no_class (_ : pystr) (_ : pyval) : res pyval := Raise Unmodelled.
-
-  (* field.serialize(value) for field (dc, fname) of type tf *)
-  Definition dyn_val (own : ownmap) (run : cache -> pystr -> sconf -> pyval -> stres pyval)
-             (dc fname : pystr) (ch : cache) (tf : tfield) (v : pyval) : stres pyval :=
-    if negb (has_ref tf) then (ch, fast_val sser ofast e no_class tf v)
-    else match strip_opt tf with
-         | TRef c => call_ref run ch c (resolve own c) v            (* late: whatever c.serialize is now *)
-         | TArray (TRef c) =>
-             match v with
-             | PList l => if class_is_fast e c
-                          then let '(ch1, f) := freeze own ch (dc, fname, c) in
-                               wrap_list (mapM_st (fun ch' x => call_ref run ch' c f x) ch1 l)
-                          else (ch, Raise AttributeError)
-             | _ => (ch, Raise Unmodelled)
-             end
-         | TSet (TRef c) =>
-             match v with
-             | PSet _ l => if class_is_fast e c
-                           then let '(ch1, f) := freeze own ch (dc, fname, c) in
-                                wrap_list (mapM_st (fun ch' x => call_ref run ch' c f x) ch1 l)
-                           else (ch, Raise AttributeError)
-             | _ => (ch, Raise Unmodelled)
-             end
-         | _ => (ch, Raise Unmodelled)
-         end.
-
-  Fixpoint dyn_fields (dv : pystr -> cache -> tfield -> pyval -> stres pyval) (c : tclass)
-           (a : list (pystr * pyval)) (ch : cache) (fs : list tfd) : stres (list (pystr * pyval)) :=
-    match fs with
-    | [] => (ch, Ok [])
-    | fd :: t =>
-        let x := getattr_m c a (f_name fd) in
-        match (if is_none x then (ch, Ok PNone)
-               else match f_ty fd with
-                    | TLeaf (LSer _ true) => (ch, Ok x)
-                    | tf => dv (f_name fd) ch tf x
-                    end) with
-        | (ch1, Ok w) =>
-            match dyn_fields dv c a ch1 t with
-            | (ch2, Ok r) => (ch2, Ok ((own_key (t_mapper c) (f_name fd), w) :: r))
-            | (ch2, Raise ex) => (ch2, Raise ex)
-            end
-        | (ch1, Raise ex) => (ch1, Raise ex)
-        end
-    end.
+  (* ClassReference.serialize(x), x.serialize(): the function `type(x).serialize` resolves to NOW, applied to x *)
+  Definition call_obj (run : pystr -> sconf -> pyval -> res pyval) (own : ownmap) (x : pyval) : res pyval :=
+    by_class e (fun rn y => match resolve own rn with
+                            | SStub => Raise NotImplementedError
+                            | SGen k cf => run k cf y
+                            end) x.
 
   (* what the generated closure does with the dict it built: serialize_none, then the compact wrapper,
      which counts the fields of the INSTANCE's class *)
@@ -294,22 +182,19 @@ Section WithFamily.
     end.
 
   (* the closure generated for class k with flags cf, applied to v *)
-  Fixpoint run_gen (own : ownmap) (fuel : nat) (ch : cache) (k : pystr) (cf : sconf) (v : pyval) : stres pyval :=
+  Fixpoint run_gen (own : ownmap) (fuel : nat) (k : pystr) (cf : sconf) (v : pyval) : res pyval :=
     match fuel with
-    | O => (ch, Raise OutOfFuel)
+    | O => Raise OutOfFuel
     | S n =>
         match find_tclass e k, v with
         | Some c, PStruct rn a =>
             match t_mapper c with
-            | MapList => (ch, Raise Unmodelled)
+            | MapList => Raise Unmodelled
             | _ =>
-                match dyn_fields (fun fname ch' tf x => dyn_val own (run_gen own n) (decl_of k fname) fname ch' tf x)
-                                 c a ch (t_fields c) with
-                | (ch1, Ok r) => (ch1, Ok (finish cf rn c r))
-                | (ch1, Raise ex) => (ch1, Raise ex)
-                end
+                r <- fast_fields (fast_val sser ofast (fun _ x => call_obj (run_gen own n) own x)) c a (t_fields c) ;;
+                Ok (finish cf rn c r)
             end
-        | _, _ => (ch, Raise Unmodelled)
+        | _, _ => Raise Unmodelled
         end
     end.
 
@@ -324,37 +209,28 @@ Section WithFamily.
   Definition unit_res (r : res unit) : res pyval :=
     match r with Ok _ => Ok PNone | Raise ex => Raise ex end.
 
-  Definition ser_now (st : fstate) (v : pyval) : fstate * res pyval :=
-    match v with
-    | PStruct rn _ =>
-        let '(ch, r) := call_ref (run_gen (fs_own st) HFUEL) (fs_cache st) rn (resolve (fs_own st) rn) v in
-        ({| fs_own := fs_own st; fs_cache := ch |}, r)
-    | _ => (st, Raise Unmodelled)
-    end.
+  (* x.serialize() *)
+  Definition ser_now (st : fstate) (v : pyval) : res pyval := call_obj (run_gen st HFUEL) st v.
 
   Definition run_op (st : fstate) (op : hop) : fstate * res pyval :=
     match op with
     | HCreate cn sn compact =>
-        let '(own, r) := create HFUEL (fs_own st) cn {| sc_sn := sn; sc_compact := compact |} in
-        ({| fs_own := own; fs_cache := fs_cache st |}, unit_res r)
-    | HInst trusted v =>
-        (* Structure.__init__ of a trusted instance reaches the mix-in's __init__ once per keyword *)
-        let '(own, r) := match trusted, v with
-                         | true, PStruct _ [] => (fs_own st, Ok tt)
-                         | _, _ => inst_tree HFUEL (fs_own st) v
-                         end in
-        ({| fs_own := own; fs_cache := fs_cache st |}, unit_res r)
-    | HSer v => ser_now st v
+        let '(own, r) := create HFUEL st cn {| sc_sn := sn; sc_compact := compact |} in (own, unit_res r)
+    | HInst _ v =>
+        (* Structure.__init__ of a trusted instance reaches the mix-in's __init__ once, after the keywords have been
+           stored - also when there are none: for the serializers a trusted instantiation is an instantiation *)
+        let '(own, r) := inst_tree HFUEL st v in (own, unit_res r)
+    | HSer v => (st, ser_now st v)
     | HSerVia compact v =>
         match v with
         | PStruct rn _ =>
-            match alist_get (fs_own st) rn with
-            | Some _ => ser_now st v
+            match alist_get st rn with
+            | Some _ => (st, ser_now st v)
             | None =>
                 (* serialize_internal creates the missing serializer with the compact flag of the call *)
-                match create HFUEL (fs_own st) rn {| sc_sn := false; sc_compact := compact |} with
-                | (own, Ok _) => ser_now {| fs_own := own; fs_cache := fs_cache st |} v
-                | (own, Raise _) => ({| fs_own := own; fs_cache := fs_cache st |}, Raise Unmodelled)
+                match create HFUEL st rn {| sc_sn := false; sc_compact := compact |} with
+                | (own, Ok _) => (own, ser_now own v)
+                | (own, Raise _) => (own, Raise Unmodelled)
                 end
             end
         | _ => (st, Raise Unmodelled)
@@ -371,8 +247,8 @@ Section WithFamily.
 
   (* ---------------------------------------------------------------- the order-free reading *)
 
-  (* every class reference is serialized by the declared class's own closure, generated with the flags
-     cf gives for that class: no state, no inheritance, no cache *)
+  (* every structure is serialized by the closure of ITS OWN class, generated with the flags cf gives for that
+     class: no state, no inheritance *)
   Fixpoint sfast (cf : pystr -> sconf) (fuel : nat) (cn : pystr) (v : pyval) : res pyval :=
     match fuel with
     | O => Raise OutOfFuel
@@ -382,11 +258,7 @@ Section WithFamily.
             match t_mapper c with
             | MapList => Raise Unmodelled
             | _ =>
-                r <- fast_fields (fast_val sser ofast e
-                                    (fun c' x => match find_tclass e c' with
-                                                 | Some cd => if t_fast cd then sfast cf n c' x else Raise TypeError
-                                                 | None => Raise Unmodelled
-                                                 end)) c a (t_fields c) ;;
+                r <- fast_fields (fast_val sser ofast (fun _ x => by_class e (sfast cf n) x)) c a (t_fields c) ;;
                 Ok (finish (cf cn) rn c r)
             end
         | _, _ => Raise Unmodelled
